@@ -395,6 +395,16 @@ def m_single_literal(draw, ir):
         p["default"] = v
 
 
+def m_optional_prose(draw, ir):
+    """Prose that begins with the word Optional / (Optional), on a parameter whose type already is Optional[...]."""
+    p = _pick(draw, ir["params"], lambda p: "doc" in p and (p.get("typ") or "").startswith("Optional["))
+    if p is None:
+        p = _new_param(draw, ir, "int")
+        p["typ"] = "Optional[int]"
+        p["_dflts"] = st.one_of(st.none(), st.integers(0, 9))
+    p["doc"] = "%s %s" % (draw(st.sampled_from(("Optional", "(Optional)"))), p["doc"])
+
+
 def m_required_bool(draw, ir):
     p = _ensure_param(draw, ir, "bool")
     p.pop("default", None)
@@ -533,6 +543,8 @@ def param_tags(p, prev_has_default=False):
                 t.add("code_default_dot")
             if typ is not None and "[" not in typ:
                 t.add("code_default_plain_type")
+            if typ is None:
+                t.add("untyped_code_default")
         elif isinstance(d, str):
             t.add("str_default")
             if "." in d:
@@ -591,6 +603,10 @@ def param_tags(p, prev_has_default=False):
             t.add("prose_punct")
         if "default" in doc.lower():
             t.add("default_words")
+        if doc.startswith(("Optional", "(Optional)")):
+            t.add("optional_prose")
+            if typ is not None and not typ.startswith("Optional["):
+                t.add("optional_prose_plain_type")
         if any(tok in doc for tok in ("Args", "Returns", "Parameters", "Raises", "param", "Kwargs")):
             t.add("foreign_tokens")
     return t
